@@ -102,6 +102,9 @@ def run(rep):
             rep.violation('deepcopy changed the original <%s>' % r['case']['root'], {'case': r['case'], 'log': r['log']})
         if not r['checks_kept']:
             rep.violation('deepcopy does not keep xsd_check on every node of <%s>' % r['case']['root'], {'case': r['case'], 'log': r['log']})
+        nc = r.get('nested_copy')
+        if nc and not (nc.get('parent_none') and nc.get('same')):
+            rep.violation('deepcopy of a child of <%s>: the copy is not an element on its own (%s)' % (r['case']['root'], nc), {'case': r['case'], 'log': r.get('log'), 'observed': nc})
         if not r['independent']:
             rep.violation('after deepcopy of <%s>, mutating one tree changes the other: %s' % (r['case']['root'], r['aliasing'][:3]), {'case': r['case'], 'log': r['log'], 'aliasing': r['aliasing']})
     rep.coverage.update({'evaluations': len(recs), 'distinct_nontrivial': sum(1 for r in recs if r.get('log') and any(p for _, p, _ in r['log'])),
